@@ -15,6 +15,7 @@ type Hooks struct {
 	Fault    func(site string) error
 	FSEvent  func(kind, path string, b []byte)
 	WrapFile func(path string, f File) File
+	Evict    func(db int, key string, memUsed int64, limit uint64)
 }
 
 var installed atomic.Pointer[Hooks]
@@ -58,4 +59,10 @@ func WrapFile(path string, f File) File {
 		return h.WrapFile(path, f)
 	}
 	return f
+}
+
+func Evict(db int, key string, memUsed int64, limit uint64) {
+	if h := installed.Load(); h != nil && h.Evict != nil {
+		h.Evict(db, key, memUsed, limit)
+	}
 }
